@@ -739,9 +739,18 @@ func FetchWithParallelRangeRequests(client *http.Client, rawURL string, cfg *Fet
 			return
 		}
 
-		data, err := io.ReadAll(resp.Body)
+		// The chunk must be exactly the requested range. A server that
+		// ignores Range answers 200 with the whole body, and a truncated 206
+		// is short; concatenating either would return wrong bytes silently.
+		// Reading one byte past the expected length bounds the read too.
+		want := rangeEnd - rangeStart + 1
+		data, err := io.ReadAll(io.LimitReader(resp.Body, want+1))
 		if err != nil {
 			resultCh <- chunkResult{index: index, err: err, hedge: isHedge}
+			return
+		}
+		if int64(len(data)) != want {
+			resultCh <- chunkResult{index: index, err: fmt.Errorf("range request for bytes %d-%d returned %d bytes (status %d), expected %d", rangeStart, rangeEnd, len(data), resp.StatusCode, want), hedge: isHedge}
 			return
 		}
 
@@ -806,7 +815,9 @@ func FetchWithParallelRangeRequests(client *http.Client, rawURL string, cfg *Fet
 	// Receive loop. `expected` grows as we launch hedges; we exit when
 	// we have a successful result for every chunk OR when we've drained
 	// every launched goroutine and some chunks are still missing.
-	for chunksRemaining > 0 {
+	// Wait only while a fetch is still in flight: once every launched fetch
+	// has reported, a chunk that is still missing can never arrive.
+	for chunksRemaining > 0 && expected > 0 {
 		cr := <-resultCh
 		expected--
 		if cr.err != nil {
